@@ -351,6 +351,8 @@ func (ex *Exec) eval1(e *Expr, env *Env) Val {
 		for _, k := range keep {
 			if k.Op == "=" && (k.Args[0].Op == "app" || k.Args[1].Op == "app") {
 				defs = append(defs, k)
+			} else if ex.allocFacts[k] {
+				defs = append(defs, k)
 			}
 		}
 		if len(defs) > 0 {
